@@ -66,12 +66,12 @@ Proof. unfold res_par, res_ok. intros H; inversion H. congruence. Qed.
 Lemma mul_dt_mono a dt : 0 <= a -> 0 < dt -> 0 <= a * dt.
 Proof. intros; nra. Qed.
 
-Theorem loco_step_second_law (l l' : Loco (F:=R)) pwr dt on :
-  loco_ok l -> 0 < dt -> loco_sim_solve_step l pwr dt on = Ok l' ->
+Theorem loco_rel_second_law (l l' : Loco (F:=R)) pwr dt on :
+  loco_ok l -> 0 < dt -> loco_step_rel l l' pwr dt on ->
   loco_ok l' /\ second_law_step l l' pwr on /\ cum_le l l'.
 Proof.
   intros (Hty & Hoff & Hco) Hdt H.
-  destruct (loco_step_spec _ _ _ _ _ H) as (Eo & Ec & _ & Haux & _ & _ & _ & Hspec).
+  destruct H as (Eo & Ec & _ & Haux & _ & _ & _ & Hspec).
   pose proof (aux_of_nonneg l on Hoff Hco) as Haux0.
   unfold loco_ok, second_law_step, cum_le, loco_edrv. rewrite Eo, Ec.
   destruct (lc_type l) as [c0|b0] eqn:Et0; destruct (lc_type l') as [c'|b'] eqn:Et'; try contradiction.
@@ -139,6 +139,11 @@ Proof.
       pose proof (mul_dt_mono _ _ (proj1 Se7) Hdt) as Hm7. pose proof (mul_dt_mono _ _ Sr1 Hdt).
       repeat split; lra.
 Qed.
+
+Theorem loco_step_second_law (l l' : Loco (F:=R)) pwr dt on :
+  loco_ok l -> 0 < dt -> loco_sim_solve_step l pwr dt on = Ok l' ->
+  loco_ok l' /\ second_law_step l l' pwr on /\ cum_le l l'.
+Proof. intros Hok Hdt H. eapply loco_rel_second_law; eauto. apply loco_step_spec; exact H. Qed.
 
 Lemma cum_le_refl l : cum_le l l.
 Proof. unfold cum_le. destruct (lc_type l); repeat split; lra. Qed.
